@@ -55,6 +55,32 @@ func randomScenario(r *rand.Rand, i int) Scenario {
 		}
 		if r.Intn(3) == 0 {
 			add(Proc{Name: "k1", Kind: "collector", N: 1 + r.Intn(3)})
+			if r.Intn(2) == 0 { // a second collector: its collections (other reader) overlap the first one's
+				add(Proc{Name: "k2", Kind: "collector", N: 1 + r.Intn(3)})
+			}
+		}
+		// faults of the delegate SDK: it refuses some callbacks / instruments
+		var regs, owners []string
+		for _, p := range sc.Procs {
+			if p.Kind == "registrar" {
+				regs = append(regs, p.Name)
+			}
+			if p.Kind == "registrar" || p.Kind == "creator" {
+				owners = append(owners, p.Name)
+			}
+		}
+		if len(regs) > 0 && r.Intn(5) == 0 {
+			sc.RefuseReg = []string{regs[r.Intn(len(regs))]}
+		}
+		if len(owners) > 0 && r.Intn(6) == 0 {
+			sc.RefuseInst = []string{owners[r.Intn(len(owners))]}
+		}
+		// overlapping invocations of one callback, each with its own Observer
+		if len(regs) > 0 && r.Intn(4) == 0 {
+			t := regs[r.Intn(len(regs))]
+			for k := 1; k <= 2+r.Intn(2); k++ {
+				add(Proc{Name: fmt.Sprintf("n%d", k), Kind: "invoker", Target: t, N: 1 + r.Intn(2)})
+			}
 		}
 	}
 	if r.Intn(10) < 5 { // trace side
@@ -195,6 +221,8 @@ func runBatch(in, out, resF string, par, nrand int) {
 			case "Timeout":
 				if ev["proven"] == true {
 					res.Count("scenarios_deadlock_proven", 1)
+				} else if ev["reason"] == "resubmission-loop" {
+					res.Count("scenarios_aborted_resubmission_loop", 1)
 				} else {
 					res.Count("scenarios_blocked_unproven", 1)
 				}
@@ -212,6 +240,10 @@ func runBatch(in, out, resF string, par, nrand int) {
 				res.Count("sdk_cb_registrations", 1)
 			case "SdkCbInvoked":
 				res.Count("sdk_cb_invocations", 1)
+			case "SdkRefused":
+				res.Count("sdk_refusals", 1)
+			case "Observed":
+				res.Count("harness_invocation_observations", 1)
 			}
 			b, _ := json.Marshal(ev)
 			w.Write(b)
